@@ -375,27 +375,23 @@ Theorem C12_gen_two_dim_etas : forall etas nd, (0 < nd)%nat ->
 Proof. exact gen_two_dim_etas. Qed.
 
 (* the whole kernels (prelude: np.nanmin / np.nanmax of the volume, cv.shape, two_dim_etas, result arrays; then
-   the loop nest) on every volume of the property's domain: two distinct finite costs, nd >= 1 disparities *)
-Theorem C12_gen_amb_kernel_eq : forall (v : volume) a b etas nd,
-  In (Some a) (concat (concat v)) -> In (Some b) (concat (concat v)) -> ~ (a == b)%Q ->
-  (0 < nd)%nat -> vol_shape nd v ->
+   the loop nest) on EVERY volume with nd >= 1 disparities (and at least one pixel, from which cv.shape is read):
+   the property's domain (two distinct finite costs) and the degenerate volumes (no finite cost, or all finite
+   costs equal: 0/0 everywhere) alike *)
+Theorem C12_gen_amb_kernel_eq : forall (v : volume) nd, vol_shape nd v -> forall etas, (0 < nd)%nat ->
   exists m, G.compute_ambiguity (xvolume v) (xetas etas) = Some m
             /\ Forall2 (Forall2 xeq) m (map (map xofz) (amb_map etas v)).
-Proof. exact gen_amb_map_eq. Qed.
+Proof. exact gen_amb_map_eq_all. Qed.
 
-Theorem C12_gen_risk_kernel_eq : forall (v : volume) a b etas nd,
-  In (Some a) (concat (concat v)) -> In (Some b) (concat (concat v)) -> ~ (a == b)%Q ->
-  (0 < nd)%nat -> vol_shape nd v ->
+Theorem C12_gen_risk_kernel_eq : forall (v : volume) nd, vol_shape nd v -> forall etas, (0 < nd)%nat ->
   exists m, grisk_map v etas = Some m /\ Forall2 (Forall2 xeq2) m (map (map xpair) (risk_map etas v)).
-Proof. exact gen_risk_map_eq. Qed.
+Proof. exact gen_risk_map_eq_all. Qed.
 
-Theorem C12_gen_bounds_kernel_eq : forall (v : volume) a b nd,
-  In (Some a) (concat (concat v)) -> In (Some b) (concat (concat v)) -> ~ (a == b)%Q ->
-  vol_shape nd v ->
+Theorem C12_gen_bounds_kernel_eq : forall (v : volume) nd, vol_shape nd v ->
   forall argsort tf thr disps, argsort_ok argsort -> length disps = nd ->
   G.compute_interval_bounds argsort (xvolume v) (xetas disps) (XFin thr) (XFin tf)
   = Some (map (map xpair) (bounds_map tf thr disps v)).
-Proof. intros v a b nd. exact (gen_bounds_map_eq v a b [] nd). Qed.
+Proof. exact gen_bounds_map_eq_all. Qed.
 
 (* normalize_with_percentile (plain numpy on the whole map, translated the same way; np.percentile is any function
    that interpolates linearly between the order statistics, percentile_ok, satisfiable: C12_gen_percentile_contract_satisfiable):
